@@ -102,7 +102,7 @@ PROPS = {
                             mc("Core-abandon-sc-2x2", ops=("send", "call", "drop", "abandon"), cfgs="CfgsB1", kinds="InitKindsSC", must_cover=("Abandon",))]},
         "gen": {"quick": [gen("g-sc-b1-2x2", "Main_SC_B1", ops=("send", "call", "drop"))], "thorough": [gen("g-sc-b1-2x2", "Main_SC_B1", ops=("send", "call", "drop"), scripts="ScriptsCore"), gen("g-cancel-2x2", "Main_Addr2_B1", ops=("send", "call"), faults=("cancel",), maxfaults=1)]},
         "live": [(mc("Live-2x2", ops=("send", "call", "ping", "stop", "drop", "await"), scripts="ScriptsPlain", cfgs="CfgsB1"), ["L_Resolves"]), (mc("Live-sc-2x2", ops=("send", "call", "drop"), scripts="ScriptsPlain", cfgs="CfgsB1", kinds="InitKindsSC"), ["L_Resolves"])],
-        "families": [("core", 200, 2000), ("life", 100, 1000), ("fail", 100, 1000)],
+        "families": [("core", 200, 2000), ("life", 100, 1000), ("fail", 100, 1000), ("awaiters", 100, 1000)],
         "relevant": r'"op":"call"', "relevant_min": 1,
     },
     "C03": {
@@ -122,7 +122,7 @@ PROPS = {
                             mc("Stop-aw-3x2", clients=C3, ops=AWOPS, kinds="InitKindsAW", cfgs="CfgsB1")]},
         "gen": {"quick": [gen("g-stop-2x2", "Main_Addr2_B1", ops=("send", "call", "stop", "halt", "await"))], "thorough": [gen("g-stop-2x2", "Main_Addr2_B1", ops=("send", "call", "stop", "halt", "await"), scripts="ScriptsStop"), gen("g-aw-2x2", "Main_AW_Unb", ops=("send", "stop", "try_stop", "try_halt", "await_ref"))]},
         "live": [(mc("Live-stop-2x2", ops=("send", "call", "stop", "halt", "await"), scripts="ScriptsStop", cfgs="CfgsB1"), ["L_StopTerminates", "L_Resolves"])],
-        "families": [("life", 250, 2500), ("stream", 60, 600), ("timeout", 150, 1500)],
+        "families": [("life", 250, 2500), ("stream", 60, 600), ("timeout", 150, 1500), ("awaiters", 100, 1000)],
         "relevant": r'"op":"(stop|halt|try_stop|try_halt|consume|await|await_ref)"|ctx_stop', "relevant_min": 1,
     },
     "C05": {
@@ -130,10 +130,11 @@ PROPS = {
         "mc": {"quick": [mc("Life-handles-2x2", ops=HOPS, scripts="ScriptsPlain", must_cover=("MailboxClosed", "Upgrade", "DropH", "Convert")),
                          mc("Life-weak-2x2", ops=("send", "call", "drop", "upgrade", "clone"), kinds="InitKindsWeak", scripts="ScriptsPlain", cfgs="CfgsB1")],
                "thorough": [mc("Life-handles-b1-2x3", maxops=3, ops=HOPS, scripts="ScriptsPlain", cfgs="CfgsB1"),
-                            mc("Life-weak-3x2", ops=("send", "call", "drop", "upgrade", "clone"), kinds="InitKindsWeak", scripts="ScriptsPlain", clients=C3, cfgs="CfgsB1")]},
+                            mc("Life-weak-3x2", ops=("send", "call", "drop", "upgrade", "clone"), kinds="InitKindsWeak", scripts="ScriptsPlain", clients=C3, cfgs="CfgsB1"),
+                            mc("Stream-drop-2x2", ops=("send", "drop", "feed", "upgrade"), scripts="ScriptsPlain", cfgs="CfgsStream", kinds="InitKindsAW")]},
         "gen": {"quick": [gen("g-drop-2x2", "Main_AW_Unb", ops=("send", "drop", "upgrade", "clone"))], "thorough": [gen("g-drop-2x3", "Main_AW_Unb", maxops=3, ops=("send", "drop", "upgrade", "downgrade"))]},
         "live": [(mc("Live-drop-2x2", ops=("send", "drop", "clone", "downgrade", "upgrade"), scripts="ScriptsPlain", cfgs="CfgsB1", kinds="InitKindsAW"), ["L_DropTerminates"])],
-        "families": [("life", 250, 2500), ("timers", 80, 800), ("broker", 50, 500)],
+        "families": [("life", 250, 2500), ("timers", 80, 800), ("broker", 50, 500), ("stream", 160, 1600)],
         "relevant": r'"op":"(drop|upgrade|downgrade)"', "relevant_min": 1,
     },
     "C06": {
@@ -144,7 +145,7 @@ PROPS = {
                                cfgs="CfgsB1", faults=("cancel",), maxfaults=1, must_cover=("Cancel", "ScriptStep")),
                             mc("Fail-own-2x3", maxops=3, ops=("send", "call", "await", "join", "stopped", "ping"), scripts="ScriptsFail", cfgs="CfgsFailOwn", kinds="InitKindsOwn", faults=("cancel",), maxfaults=1),
                             mc("Fail-3x2", clients=C3, ops=("send", "call", "await", "halt", "upgrade"), scripts="ScriptsFail", cfgs="CfgsFail", kinds="InitKindsAW", faults=("cancel",), maxfaults=2)]},
-        "families": [("fail", 300, 3000), ("tree", 80, 800), ("timers", 80, 800), ("registry", 80, 800)],
+        "families": [("fail", 300, 3000), ("tree", 80, 800), ("timers", 80, 800), ("registry", 80, 800), ("awaiters", 60, 600)],
         "relevant": r'"how":"panic"|"ev":"cancel"|"e":"err"|h_abandon', "relevant_min": 1,
     },
     "C07": {
@@ -218,10 +219,11 @@ PROPS = {
         "invariants": ["C12"],
         "mc": {"quick": [mc("Core-addr-2x2", must_cover=SUBMIT), mc("Core-b-2x2", kinds="InitKindsSC", cfgs="CfgsB1", ops=("send", "call", "stop"))],
                "thorough": [mc("Core-addr-2x2", cfgs="CfgsCore2", must_cover=SUBMIT), mc("Core-addr-b1-2x3", maxops=3, cfgs="CfgsB1"), mc("Core-addr-b0-2x2", cfgs="CfgsB0", ops=("send", "call", "ping", "stop")),
-                            mc("Core-b-3x2", clients=C3, kinds="InitKindsSC", cfgs="CfgsB1", ops=("send", "call", "stop"))]},
+                            mc("Core-b-3x2", clients=C3, kinds="InitKindsSC", cfgs="CfgsB1", ops=("send", "call", "stop")),
+                            mc("Stream-send-2x2", ops=("send", "stop", "feed"), scripts="ScriptsPlain", cfgs="CfgsStream")]},
         "gen": {"quick": [gen("g-addr-b0-2x2", "Main_Addr2_B0", ops=("send", "call", "stop"))], "thorough": [gen("g-addr-b0-2x3", "Main_Addr2_B0", maxops=3, ops=("send", "call")), gen("g-sc-b1-2x3", "Main_SC_B1", maxops=3, ops=("send", "call"))]},
         "live": [(mc("Live-send-2x2", ops=("send", "call", "stop"), scripts="ScriptsPlain", cfgs="CfgsB1", kinds="InitKindsSC"), ["L_SendReturns"]), (mc("Live-send0-2x2", ops=("send", "call", "drop"), scripts="ScriptsPlain", cfgs="CfgsCore"), ["L_SendReturns"])],
-        "families": [("core", 250, 2500)],
+        "families": [("core", 250, 2500), ("stream", 100, 1000)],
         "relevant": r'"op":"send"', "relevant_min": 1,
     },
     "C13": {
@@ -237,7 +239,7 @@ PROPS = {
         "mc": {"quick": [mc("Query-2x3", maxops=3, ops=QOPS, scripts="ScriptsPlain", cfgs="CfgsUnb", must_cover=("Query", "AwaitReturn", "StopTaken"))],
                "thorough": [mc("Query-3x3", maxops=3, clients=C3, ops=QOPS, scripts="ScriptsPlain", cfgs="CfgsUnb", kinds="InitKindsAW")]},
         "dev_demo": [("D1", mc("Query-2x3", maxops=3, ops=QOPS, scripts="ScriptsPlain", cfgs="CfgsUnb"))],
-        "families": [("life", 200, 2000), ("registry", 150, 1500), ("fail", 100, 1000)],
+        "families": [("life", 200, 2000), ("registry", 150, 1500), ("fail", 100, 1000), ("awaiters", 80, 800)],
         "relevant": r'"op":"(stopped|running|try_from_registry|already_running)"', "relevant_min": 1,
     },
     "C15": {
